@@ -765,7 +765,14 @@ namespace
             }
         }
 
-        std::sort(arr->begin(), arr->end(), [sort_flag](sqf::runtime::value::cref a, sqf::runtime::value::cref b) -> bool {
+        // std::sort needs a strict weak ordering: equal elements and equal rows compare false both ways,
+        // NaN sorts in front of every other number
+        auto less_scalar = [](float x, float y) -> bool {
+            if (std::isnan(x)) return !std::isnan(y);
+            if (std::isnan(y)) return false;
+            return x < y;
+        };
+        std::sort(arr->begin(), arr->end(), [sort_flag, less_scalar](sqf::runtime::value::cref a, sqf::runtime::value::cref b) -> bool {
 
             if (a.is<t_array>())
             {
@@ -777,18 +784,18 @@ namespace
                     const auto& a_elem = a_arr[idx];
                     const auto& b_elem = b_arr[idx];
 
-                    if (a.is<t_string>())
+                    if (a_elem.is<t_string>())
                     {
                         if (a_elem.data<d_string, std::string>() < b_elem.data<d_string, std::string>()) return sort_flag;
                         if (a_elem.data<d_string, std::string>() > b_elem.data<d_string, std::string>()) return !sort_flag;
                     }
-                    else if (a.is<t_scalar>())
+                    else if (a_elem.is<t_scalar>())
                     {
-                        if (a_elem.data<d_scalar, float>() < b_elem.data<d_scalar, float>()) return sort_flag;
-                        if (a_elem.data<d_scalar, float>() > b_elem.data<d_scalar, float>()) return !sort_flag;
+                        if (less_scalar(a_elem.data<d_scalar, float>(), b_elem.data<d_scalar, float>())) return sort_flag;
+                        if (less_scalar(b_elem.data<d_scalar, float>(), a_elem.data<d_scalar, float>())) return !sort_flag;
                     }
                 }
-                return !sort_flag;
+                return false;
             }
             else if (a.is<t_string>())
             {
@@ -798,11 +805,11 @@ namespace
             }
             else if (a.is<t_scalar>())
             {
-                if (a.data<d_scalar, float>() < b.data<d_scalar, float>()) return sort_flag;
-                if (a.data<d_scalar, float>() > b.data<d_scalar, float>()) return !sort_flag;
+                if (less_scalar(a.data<d_scalar, float>(), b.data<d_scalar, float>())) return sort_flag;
+                if (less_scalar(b.data<d_scalar, float>(), a.data<d_scalar, float>())) return !sort_flag;
                 return false;
             }
-            return !sort_flag;
+            return false;
             });
 
         return {};
